@@ -24,6 +24,9 @@ def _enum(tier: str):
         range(len(DBS)), range(len(SCHEMAS)), [True, False], [True, False], range(len(STORAGE)), range(len(PRIOR)), seconds
     ):
         yield {"db": db, "schema": sc, "create_db": cd, "create_schema": cs, "storage": sto, "prior": pri, "second": sec}
+    # the same options given to fakesnow.patch() and the connection made through the patched snowflake.connector.connect
+    for db, sc, cd, cs, sto, pri in itertools.product(range(len(DBS)), range(len(SCHEMAS)), [True, False], [True, False], [0, 1] if tier == "quick" else range(len(STORAGE)), [0, 2] if tier == "quick" else range(len(PRIOR))):
+        yield {"db": db, "schema": sc, "create_db": cd, "create_schema": cs, "storage": sto, "prior": pri, "second": "none", "via": "patch"}
 
 
 def _listing(fs) -> tuple[set, set]:
@@ -71,10 +74,24 @@ def run_config(case, ctx: Ctx) -> None:
     os.mkdir(watch)
     os.chdir(watch)
     fs = None
+    patcher = None
     disc = f"create_db={int(cd)}|create_schema={int(cs)}|db={'given' if db_arg else 'absent'}|schema={'info' if sc_arg and sc_arg.upper()=='INFORMATION_SCHEMA' else ('given' if sc_arg else 'absent')}"
     try:
         path = _prepare_path(storage, root) if storage != "memory" else None
-        fs = new_instance(create_database_on_connect=cd, create_schema_on_connect=cs, db_path=path)
+        via = case.get("via", "instance")
+        if via == "instance":
+            fs = new_instance(create_database_on_connect=cd, create_schema_on_connect=cs, db_path=path)
+        elif via == "patch":
+            import snowflake.connector
+
+            import fakesnow
+
+            patcher = fakesnow.patch(create_database_on_connect=cd, create_schema_on_connect=cs, db_path=path)
+            patcher.__enter__()
+            fs = snowflake.connector.connect.side_effect.__self__
+        else:
+            raise InvalidCase()
+        ctx.cls(f"via:{via}")
         # prior state in the live instance, built through an option-less session B (which stays open with a transaction)
         b = fs.connect()
         bcur = b.cursor()
@@ -96,6 +113,9 @@ def run_config(case, ctx: Ctx) -> None:
 
         def do_connect(d, s, label):
             try:
+                if via == "patch":
+                    kw = {k: v for k, v in (("database", d), ("schema", s)) if v is not None}
+                    return snowflake.connector.connect(**kw)
                 return fs.connect(d, s)
             except Exception as e:
                 ctx.fail(f"C14|connect-raises|{etype_name(e)}|{label}|{disc}", f"connect({d!r}, {s!r}) storage={storage} prior={prior}: {e}")
@@ -179,6 +199,22 @@ def run_config(case, ctx: Ctx) -> None:
             if where != [(DB, SC)]:
                 ctx.fail(f"C14|context|probe-landed-elsewhere|{disc}", f"{where} want {[(DB, SC)]}")
             run(cur, "DROP TABLE VF_PROBE")
+        if want_db and not want_sc:
+            # the database is current although the schema is not: an unqualified CREATE SCHEMA belongs to it
+            o3 = run(cur, "CREATE SCHEMA VF_PS")
+            if not o3.ok:
+                ctx.fail(f"C14|context|unqualified-create-schema|raises|{disc}", f"connect({db_arg!r},{sc_arg!r}) storage={storage} prior={prior}: {o3}")
+            else:
+                c = fs.duck_conn.cursor()
+                where = c.execute("select upper(catalog_name) from information_schema.schemata where upper(schema_name)='VF_PS'").fetchall()
+                c.close()
+                if where != [(DB,)]:
+                    ctx.fail(f"C14|context|schema-probe-landed-elsewhere|{disc}", f"{where} want {[(DB,)]}")
+                o4 = run(cur, "USE SCHEMA VF_PS")
+                if not o4.ok:
+                    ctx.fail(f"C14|context|use-created-schema-fails|{disc}", f"{o4}")
+                for d_ in {w[0] for w in where}:
+                    run(conn.cursor(), f"DROP SCHEMA {d_}.VF_PS")
         if want_db and want_sc:
             o2 = run(cur, "SELECT CURRENT_DATABASE(), CURRENT_SCHEMA()")
             if not o2.ok or o2.rows != [(DB, SC)]:
@@ -225,7 +261,12 @@ def run_config(case, ctx: Ctx) -> None:
                 ctx.fail(f"C14|files|db_path-contents|{disc}", f"storage={storage} prior={prior}: {files} want {sorted(want_files)}")
     finally:
         os.chdir(old_cwd)
-        if fs is not None:
+        if patcher is not None:
+            try:
+                patcher.__exit__(None, None, None)
+            except Exception:
+                pass
+        elif fs is not None:
             close_instance(fs)
         shutil.rmtree(root, ignore_errors=True)
 
@@ -242,7 +283,8 @@ PROP = Prop(
                 "Complete product: database arg {absent, db1, DB1, Db1} x schema arg {absent, s1, S1, information_schema, "
                 "INFORMATION_SCHEMA} x create_database_on_connect x create_schema_on_connect x storage {memory, empty db_path, db_path "
                 "holding DB1.db, db_path holding DB1.db with schema+rows} x prior live state {nothing, database, +schema, +data} x an "
-                "earlier connect {none, same args, other letter case, database only} (thorough: + every argument pair): 2560 / 30720 "
+                "earlier connect {none, same args, other letter case, database only} (thorough: + every argument pair), plus the same options "
+                "given to fakesnow.patch() with the connection made through the patched snowflake.connector.connect: 2880 / 32000 "
                 "configurations, each with a second session holding an open transaction. Oracle: pure function of the configuration "
                 "(objects created, names reported, 90105/90106/success of an unqualified CREATE TABLE, files, bystanders). "
                 "Non-trivial: every configuration except 'both arguments absent'."
